@@ -971,6 +971,11 @@ class QasmVisitor:
             modifier_name = modifier.modifier
             if modifier_name == qasm3_ast.GateModifierName.pow and modifier.argument is not None:
                 current_power = Qasm3ExprEvaluator.evaluate_expression(modifier.argument)[0]
+                if not isinstance(current_power, int):
+                    raise_qasm3_error(
+                        f"Power modifier argument must be an integer in gate operation {operation}",
+                        span=operation.span,
+                    )
                 if current_power < 0:
                     inverse_value = not inverse_value
                 power_value = power_value * abs(current_power)
